@@ -288,7 +288,13 @@ def process_child_nodes(
             var_collector.append_child(variable_id, child)
 
     # scan the child based on type
-    return find_children_for_parent(var_collector, VariableParent(), var_value, variable_type)
+    try:
+        return find_children_for_parent(var_collector, VariableParent(), var_value, variable_type)
+    except BaseException:
+        # not every object has an attribute dictionary (bytes, range, slotted objects, generators ...) and attribute
+        # access on an application object can raise anything: such a value simply has no children
+        logging.debug("Cannot collect children of type %s", variable_type)
+        return []
 
 
 def correct_names(name, val):
